@@ -361,4 +361,25 @@ def spanOK (cw : Nat → Nat) (sp : Span) : Bool :=
 def lineOK (cw : Nat → Nat) (W : Nat) (l : SLine) : Bool :=
   l.spans.all (spanOK cw) && decide (sumWidths l.spans = W) && decide (l.width = W)
 
+/-! ### the invariant the operations preserve
+
+`lineOK` above is NOT preserved (theorem `C02Span.lineOK_not_preserved`): it accepts a text such as
+`[0xE4, 0x41]`, whose first byte tokenises as a character of its own only because of the byte
+after it; cut off, `[0xE4]` is an incomplete character and shows no cell. The code never stores
+such a text (`replaceInvalidUTF8` runs first); the invariant that says so, and that every
+row-level operation keeps, asks in addition that every character of a stored text tokenises on
+its own. -/
+
+def textWF (cw : Nat → Nat) (text : Bytes) (w : Nat) : Bool :=
+  textOK cw text w &&
+  (clusters cw text).all fun p => stepRune cw p.1 == some (p.1.length, p.2)
+
+def spanWF (cw : Nat → Nat) (sp : Span) : Bool :=
+  decide (sp.width > 0) &&
+  (if sp.text.isEmpty then decide (cw sp.rune ≤ 1) else textWF cw sp.text sp.width)
+
+/-- C02's statement about one row, in the form the operations preserve -/
+def lineWF (cw : Nat → Nat) (W : Nat) (l : SLine) : Bool :=
+  l.spans.all (spanWF cw) && decide (sumWidths l.spans = W) && decide (l.width = W)
+
 end TM
